@@ -44,20 +44,20 @@ def sig(c, r):
 
 # ---- plans -------------------------------------------------------------------------------------------------
 def mat_plan(thorough):
-    # (nr, nd, nc, square, pattern variants)
-    plan = [(1, 2, 2, True, "{0}"), (2, 3, 3, True, "{0, 2}"), (3, 2, 2, True, "{0, 2}"), (3, 3, 3, True, "{2}"),
-            (2, 2, 2, False, "{0, 1}"), (3, 2, 2, False, "{1}"), (4, 2, 2, True, "{2}")]
+    # (nr, nd, nc, square, pattern variants, largest local renumbering kind of module Renum)
+    plan = [(1, 2, 2, True, "{0}", 2), (2, 3, 3, True, "{0, 2}", 2), (3, 2, 2, True, "{0, 2}", 2), (3, 3, 3, True, "{2}", 2),
+            (2, 2, 2, False, "{0, 1}", 2), (3, 2, 2, False, "{1}", 2), (4, 2, 2, True, "{2}", 2)]
     if thorough:
-        plan += [(3, 3, 3, True, "{0, 1}"), (4, 3, 3, True, "{2}"), (2, 3, 2, False, "{0, 1, 2}"), (3, 2, 3, False, "{0, 1}"),
-                 (4, 2, 2, False, "{1}"), (5, 2, 2, True, "{0, 2}"), (6, 2, 2, True, "{2}")]
+        plan += [(2, 3, 3, True, "{0, 1, 2}", 5), (3, 3, 3, True, "{0, 1}", 2), (4, 3, 3, True, "{2}", 1), (2, 3, 2, False, "{0, 1, 2}", 5),
+                 (3, 2, 3, False, "{0, 1}", 2), (4, 2, 2, False, "{1}", 2), (5, 2, 2, True, "{0, 2}", 2), (6, 2, 2, True, "{2}", 2)]
     return plan
 
 
-def gen_mat(nr, nd, nc, square, pvs):
-    name = "gen_GlobalMat_%d_%d_%d_%d_%s_%d.cfg" % (nr, nd, nc, 1 if square else 0, "".join(ch for ch in pvs if ch.isdigit()), os.getpid())
-    laws = "LawUnshared LawConsistent" + (" LawDiag" if square else "")
-    _cfg(name, "SPECIFICATION GenSpec\nCONSTANTS NR = %d ND = %d NC = %d SQUARE = %s PVS = %s BS = 6\nINVARIANTS Emit %s\n"
-         % (nr, nd, nc, "TRUE" if square else "FALSE", pvs, laws))
+def gen_mat(nr, nd, nc, square, pvs, renk):
+    name = "gen_GlobalMat_%d_%d_%d_%d_%s_%d_%d.cfg" % (nr, nd, nc, 1 if square else 0, "".join(ch for ch in pvs if ch.isdigit()), renk, os.getpid())
+    laws = "LawUnshared LawConsistent LawRenum" + (" LawDiag" if square else "")
+    _cfg(name, "SPECIFICATION GenSpec\nCONSTANTS NR = %d ND = %d NC = %d SQUARE = %s PVS = %s BS = 6 RENK = %d\nINVARIANTS Emit %s\n"
+         % (nr, nd, nc, "TRUE" if square else "FALSE", pvs, renk, laws))
     try:
         return vlib.tlc("Gen_GlobalMat", name, workers=1, timeout=1500)
     finally:
@@ -89,29 +89,41 @@ def run_mat(chk, binary, ex):
         if r.violation:
             chk.model_violation(r, "SynchMat.tla (%s)" % c)
     bynr = {}
+    nonmono = 0
     for f, p in gens:
         r = f.result()
-        chk.add_tlc(r, "Gen_GlobalMat nr=%d nd=%d nc=%d square=%s pv=%s" % p)
+        chk.add_tlc(r, "Gen_GlobalMat nr=%d nd=%d nc=%d square=%s pv=%s renk=%d" % p)
         if r.violation:
             chk.model_violation(r, "Gen_GlobalMat laws (%s)" % (p,))
         bynr.setdefault(p[0], []).extend(r.printed)
     total = 0
     for nr in sorted(bynr):
-        cases = bynr[nr]
+        cases, seen = [], set()
+        for c in bynr[nr]:
+            k = json.dumps([c["rdofs"], c["cdofs"], c["pv"]], sort_keys=True)
+            if k not in seen:
+                seen.add(k)
+                cases.append(c)
         total += replay(chk, binary, cases, nr, "c13_gmat",
                         keyf=lambda c: json.dumps(["mat", c["nr"], c["rdofs"], c["cdofs"], c["pv"]], sort_keys=True),
                         nontrivial=lambda c: c["nr"] >= 2 and any(x >= 2 for v in c["rcount"].values() for x in v))
         if nr == 3 and cases:
             c = cases[len(cases) // 2]
             chk.sample({k: c[k] for k in ("kind", "nr", "rdofs", "cdofs", "pv", "pat", "gnnz")})
+            rn = [x for x in cases if x.get("nonmono")]
+            if rn:
+                c = rn[len(rn) // 2]
+                chk.sample({k: c[k] for k in ("kind", "nr", "rdofs", "cdofs", "rmir", "cmir", "pv", "pat", "gnnz")})
+        nonmono += sum(1 for x in cases if x.get("nonmono"))
     chk.extra["mat_cases"] = total
+    chk.extra["mat_cases_nonmonotone_mirror"] = nonmono
     return total
 
 
 # ---- vectors, scalars, splitter, filters ------------------------------------------------------------------------
-def gen_vec(nr, nd):
-    name = "gen_SynchB_%d_%d_%d.cfg" % (nr, nd, os.getpid())
-    _cfg(name, "SPECIFICATION GenSpec\nCONSTANTS NR = %d ND = %d\nINVARIANTS EmitB LawSyncShared LawNorm\n" % (nr, nd))
+def gen_vec(nr, nd, renk):
+    name = "gen_SynchB_%d_%d_%d_%d.cfg" % (nr, nd, renk, os.getpid())
+    _cfg(name, "SPECIFICATION GenSpec\nCONSTANTS NR = %d ND = %d RENK = %d\nINVARIANTS EmitB LawSyncShared LawNorm LawRenum LawRenum2\n" % (nr, nd, renk))
     try:
         return vlib.tlc("Gen_SynchB", name, workers=1, timeout=1500)
     finally:
@@ -119,19 +131,30 @@ def gen_vec(nr, nd):
 
 
 def vec_plan(thorough):
-    return [(1, 3), (2, 3), (3, 3), (4, 2)] + ([(4, 3), (5, 2), (6, 2)] if thorough else [])
+    # (ranks, global dofs, largest local renumbering kind of module Renum)
+    if thorough:
+        return [(1, 3, 2), (2, 3, 5), (3, 3, 5), (4, 2, 2), (4, 3, 1), (5, 2, 2), (6, 2, 2)]
+    return [(1, 3, 2), (2, 3, 2), (3, 3, 2), (4, 2, 2)]
 
 
 def run_vec(chk, binary, ex):
     thorough = chk.tier == "thorough"
-    gens = [(ex.submit(gen_vec, nr, nd), nr, nd) for nr, nd in vec_plan(thorough)]
+    gens = [(ex.submit(gen_vec, nr, nd, rk), nr, nd, rk) for nr, nd, rk in vec_plan(thorough)]
     total = 0
-    for f, nr, nd in gens:
+    nonmono = 0
+    seen = set()
+    for f, nr, nd, rk in gens:
         r = f.result()
-        chk.add_tlc(r, "Gen_SynchB nr=%d nd=%d" % (nr, nd))
+        chk.add_tlc(r, "Gen_SynchB nr=%d nd=%d renk=%d" % (nr, nd, rk))
         if r.violation:
             chk.model_violation(r, "Gen_SynchB laws (nr=%d nd=%d)" % (nr, nd))
-        cases = list(r.printed)
+        cases = []
+        for c in r.printed:       # a decomposition generated by two plan entries (quick and deeper renumbering kinds) is replayed once
+            k = json.dumps([c["nr"], c["dofs"]], sort_keys=True)
+            if k not in seen:
+                seen.add(k)
+                cases.append(c)
+        nonmono += sum(1 for c in cases if c.get("nonmono"))
         # probe cases: the tickets of sync_*_async are waited for unconditionally (one process; two processes without a shared dof)
         probes = []
         if nr <= 2:
@@ -141,6 +164,8 @@ def run_vec(chk, binary, ex):
                     d["kind"] = "asyncprobe"
                     probes.append(d)
                     break
+        if not cases:
+            continue
         total += replay(chk, binary, cases, nr, "c13_gvec",
                         keyf=lambda c: json.dumps(["vec", c["nr"], c["dofs"]], sort_keys=True),
                         nontrivial=lambda c: c["nr"] >= 2 and any(x >= 2 for v in c["count"].values() for x in v))
@@ -156,6 +181,7 @@ def run_vec(chk, binary, ex):
             c = cases[len(cases) // 2]
             chk.sample({k: c[k] for k in ("kind", "nr", "dofs", "vb0", "sync0b", "t2dofs", "tdot", "root", "base", "ssum", "smin")})
     chk.extra["vec_cases"] = total
+    chk.extra["vec_cases_nonmonotone_mirror"] = nonmono
     return total
 
 
